@@ -49,7 +49,7 @@ func init() { register("C17", func() core.Check { return &c17{} }) }
 
 func (*c17) Level() string { return "exploration" }
 func (*c17) Rule() string {
-	return "case = journal from one of two generators (gen.Accepted with boundary-rich amounts, optionally prices/accruals; or a dedicated generator whose running *balances* per (account, commodity) are drawn from the rounding-boundary list scaled to the case's focus (--digits, -k), names up to 60 runes incl. multi-byte; with -k focus also 16-decimal balances 4e-16 below a boundary) x flag combinations (--digits -2..10 or omitted, -k/--thousands, window/interval/last/diff/close, -v with a price tree, -s), each rendered as text and as --csv with -a, a third of the text tables with colours switched on (escape sequences removed, the remainder must equal the --color=false table byte for byte); oracle = equal rune width of all lines, '|'/'+' at the same rune columns in every line, text rows (minus separator/blank rows) 1:1 with CSV records cell by cell, every numeric text cell == independent big.Rat formatter(CSV amount, n, k) incl. digit grouping, zero => blank, and CSV account cells == reference ledger; non-trivial = report with >=4 numeric cells, >=1 of them on a rounding boundary or with a thousands separator or negative, and (multi-byte names or >=2 date columns); distinct = hash of journal text + flags"
+	return "case = journal from one of two generators (gen.Accepted with boundary-rich amounts, optionally prices/accruals; or a dedicated generator whose running *balances* per (account, commodity) are drawn from the rounding-boundary list scaled to the case's focus (--digits, -k), names up to 60 runes incl. multi-byte; with -k focus also 16-decimal balances 4e-16 below a boundary) x flag combinations (--digits -2..10 or omitted, -k/--thousands, window/interval/last/diff/close, -v with a price tree, -s), each rendered as text and as --csv with -a (the CSV run sometimes carries -k and --digits too: its amounts must stay exact), a third of the text tables with colours switched on (escape sequences removed, the remainder must equal the --color=false table byte for byte); oracle = equal rune width of all lines, '|'/'+' at the same rune columns in every line, text rows (minus separator/blank rows) 1:1 with CSV records cell by cell, every numeric text cell == independent big.Rat formatter(CSV amount, n, k) incl. digit grouping, zero => blank, and CSV account cells == reference ledger; non-trivial = report with >=4 numeric cells, >=1 of them on a rounding boundary or with a thousands separator or negative, and (multi-byte names or >=2 date columns); distinct = hash of journal text + flags"
 }
 
 func (k *c17) Setup(c *core.Ctx) (int, error) {
@@ -666,7 +666,12 @@ func (k *c17) RunCase(c *core.Ctx, i int) {
 			argsT = append(argsT, []string{"-k", "--thousands"}[fr.Intn(2)])
 		}
 		argsT = append(argsT, "j.knut")
-		argsC := append(append([]string{}, base...), "--csv", "j.knut")
+		argsC := append(append([]string{}, base...), "--csv")
+		if kk && fr.Intn(2) == 0 {
+			// the CSV carries the exact amounts whatever the display flags say
+			argsC = append(argsC, []string{"-k", "--thousands"}[fr.Intn(2)], fmt.Sprintf("--digits=%d", fr.Intn(6)))
+		}
+		argsC = append(argsC, "j.knut")
 		// a third of the text tables are rendered with colours on (the flag's default): the
 		// escape sequences are not part of the table, what remains must be the same table
 		colored := fr.Intn(3) == 0
